@@ -28,8 +28,15 @@ def _run_chunk(exe, jobs, workdir, env, per_job_timeout, stderr_out=None):
         e.setdefault("ASAN_OPTIONS", "detect_leaks=0:abort_on_error=0:exitcode=86")
         e.setdefault("UBSAN_OPTIONS", "print_stacktrace=1:halt_on_error=1:exitcode=87")
         try:
+            def _big_stack():
+                # sanitizer builds use several times the normal stack per interpreter frame
+                import resource
+                try:
+                    resource.setrlimit(resource.RLIMIT_STACK, (1 << 30, resource.RLIM_INFINITY))
+                except Exception:
+                    pass
             p = subprocess.run([exe, jf, rf, workdir, STDLIB], stdout=subprocess.PIPE, stderr=subprocess.PIPE,
-                               env=e, timeout=per_job_timeout * len(remaining) + 60)
+                               env=e, timeout=per_job_timeout * len(remaining) + 60, preexec_fn=_big_stack)
             rc, err = p.returncode, p.stderr.decode(errors="replace")
         except subprocess.TimeoutExpired as ex:
             rc, err = -999, "driver timeout"
